@@ -163,6 +163,27 @@ def slice_oracles(R, db, res, extra=None):
     return n
 
 
+def missing_slice_oracle(R, db, res, extra=None):
+    """implementation only: a lemma that was asked for, verifies in the database, has a compressed proof and is
+    preceded only by statements of the shapes the slicer supports MUST get a slice (the generator must not raise
+    before reaching it)"""
+    got = {s['label'] for s in res['slices']}
+    for lab in res.get('incl') or []:
+        if lab in got or not O.plainly_sliceable(db, lab, res.get('sd')):
+            continue
+        if not O.verify(db, lab)[0]:
+            continue
+        replay = dict(db=F.layout(G.db_tokens(db)), lemma=lab, raised=res.get('crash'), slices_produced=sorted(got), sd=res.get('sd'))
+        if extra:
+            replay.update(extra)
+        if res.get('crash'):
+            R.violation('slice:raises-on-valid-database',
+                        f'slice_database raised {res["crash"]} before producing the slice for {lab} (valid database, compressed proof)', replay)
+        else:
+            R.violation('slice:missing-for-lemma', f'no slice was produced for the requested lemma {lab}', replay)
+        return
+
+
 def run_impl_isolated(reqs, hashseed='0'):
     """one fresh implementation process per request"""
     def one(req):
@@ -414,6 +435,7 @@ def run(tier, seed):
                         model_slice=F.layout(G.db_tokens(b[first][1])) if first < len(b) else None)))
         # oracles on the real slices (implementation only; independent of the model comparison above)
         n_slices += slice_oracles(R, db, res)
+        missing_slice_oracle(R, db, res)
         # other hash seeds: same slices modulo the $d order
         for hs in seeds[1:]:
             if j >= len(impl_s[hs]):
@@ -475,6 +497,7 @@ def run(tier, seed):
             if sres and 'slices' in sres and item.get('ast'):
                 n_slices += slice_oracles(R, F.parse_db_str(item['ast']), sres,
                                           extra=dict(parsed_after=seqs[i][:k], note='database = AST parsed after the earlier texts in one process'))
+                missing_slice_oracle(R, F.parse_db_str(item['ast']), sres, extra=dict(parsed_after=seqs[i][:k]))
     R.hist['slices-checked'] = n_slices
 
     # ---- 5b. tie D: reference verifier model (Verify.v) vs the harness' Python verifier; model predicates on real slices
